@@ -21,11 +21,17 @@
 (*                and of every module (id of the vector)                   *)
 (*   rg           requires_grad vector (id)                                *)
 (*   theta        "-" | "soft" | "hard"  class of the stored coefficients  *)
+(*   thv          id of the bytes of all stored theta_alpha tensors        *)
 (*   out, oute    output on a fixed batch in the current modes / in eval   *)
 (*                mode (id of the round-off cluster; outx, outex exact)    *)
 (*   cost, costv  every cost value under the current specification         *)
 (*   costfin      all of them finite and >= 0;  sum = summary();  cs       *)
 (*   fperr        "" or the exception cost / summary / forward raised      *)
+(*   opt          options as stored in the model, aggregated over its      *)
+(*                quantisers / combiners ("T"|"F"|"mixed"|"-"; temp x 1000)*)
+(*                and samp = the sampler in force, classified by behaviour *)
+(*                ("sm"|"gs"|"none"); PIT: the four getters                *)
+(*   optv         id of the complete per-module option / sampler vector    *)
 (*   copy_ok      the model can be deep-copied (strict copy.deepcopy that   *)
 (*                only detaches non-leaf tensors)                          *)
 (*   dkeys        id of {module name -> PUBLIC keys of vars(module)}       *)
@@ -40,6 +46,8 @@
 (* Property clauses (VIOLATION):                                           *)
 (*   raises       a call of the alphabet raised                            *)
 (*   neutral      an observer call changed a fingerprint component         *)
+(*   options      an observer call changed an option (as stored in any     *)
+(*                quantiser / combiner / PIT layer) or the sampler in force*)
 (*   usable       after an observer call the model can no longer be        *)
 (*                deep-copied, or vars() of a module has another public    *)
 (*                key set than before the call                             *)
@@ -63,6 +71,9 @@
 (*   F37  cost / get_cost update vars(layer) of layers that are not        *)
 (*        searchable (fixed layers under full_cost, SuperNet branch        *)
 (*        layers): new key output_shape on the user's layers               *)
+(*   F38  SuperNet export(): the stored theta_alpha of the combiners is     *)
+(*        overwritten by the conversion's eval-mode forward (visible when  *)
+(*        it was a Gumbel sample or predates an option change)             *)
 (* Prediction clauses (drift): mode / coefficient class / BN counter after *)
 (* forward, train(), eval() as RefNext computes them from the previous     *)
 (* observation; returned value = fingerprint value.                        *)
@@ -89,16 +100,17 @@ ModeF  == {"wt", "st", "flags"}
 OutF   == {"out", "oute"}
 CostF  == {"cost", "costfin"}
 UseF   == {"copy_ok", "dkeys"}
-AllF   == ParamF \cup BufF \cup ModeF \cup OutF \cup CostF \cup UseF \cup {"rg", "theta", "sum"}
+OptF   == {"optv"}
+AllF   == ParamF \cup BufF \cup ModeF \cup OutF \cup CostF \cup UseF \cup OptF \cup {"rg", "theta", "thv", "sum"}
 
 Changed(p, o) == {f \in AllF : p[f] # o[f]}
 
 \* what each known finding explains
 F16Fields == {"st", "flags", "out"}
-F35Fields == {"bth", "theta", "cost"}
+F35Fields == {"bth", "theta", "thv", "cost"}
 \* ... and their consequences at later calls (the seed stays in eval mode: no BatchNorm update, hard coefficients)
-F16Later  == {"st", "flags", "out", "oute", "bbn", "nbt", "bth", "theta", "cost"}
-F35Later  == {"bth", "theta", "cost"}
+F16Later  == {"st", "flags", "out", "oute", "bbn", "nbt", "bth", "theta", "thv", "cost"}
+F35Later  == {"bth", "theta", "thv", "cost"}
 
 F36Fields == {"copy_ok", "dkeys"}
 F37Fields == {"dkeys"}
@@ -113,6 +125,11 @@ F36Sig(kind, e) == /\ kind = "mps" /\ e.act.a \in {"cost", "getcost"} /\ e.dk.nd
                    /\ \A x \in Range(e.dk.new) : IsF36Key(x) \/ IsF37Key(x)
 F37Sig(e) == /\ e.act.a \in {"cost", "getcost"} /\ e.dk.ndel = 0 /\ e.dk.nnew > 0
              /\ \A x \in Range(e.dk.new) : IsF37Key(x)
+
+\* F38: SuperNet.export() runs the shape propagation on the live seed: every combiner re-samples its theta_alpha (a
+\* plain attribute, used by cost) in eval mode with the options in force NOW
+F38Fields == {"theta", "thv", "cost"}
+F38Sig(kind, a, p, o) == kind = "sn" /\ a.a = "export" /\ p.thv # o.thv
 
 F16Sig(a, p, o) == a.a = "export" /\ p.st = "T" /\ o.st = "F" /\ o.wt = p.wt
 F35Sig(kind, a, p, o) == kind = "mps" /\ a.a = "export" /\ p.theta = "soft" /\ o.theta = "hard" /\ p.bth # o.bth
@@ -134,7 +151,8 @@ ObserverVerdict(kind, e, p, where) ==
         s35 == F35Sig(kind, a, p, o)
         s36 == F36Sig(kind, e)
         s37 == F37Sig(e)
-        expl == (IF s16 THEN F16Fields ELSE {}) \cup (IF s35 THEN F35Fields ELSE {})
+        s38 == F38Sig(kind, a, p, o)
+        expl == (IF s16 THEN F16Fields ELSE {}) \cup (IF s35 THEN F35Fields ELSE {}) \cup (IF s38 THEN F38Fields ELSE {})
                 \cup (IF s36 THEN F36Fields ELSE {}) \cup (IF s37 THEN F37Fields ELSE {})
         bad  == ch \ expl
     IN  IF ch = {} THEN OK
@@ -145,6 +163,10 @@ ObserverVerdict(kind, e, p, where) ==
         THEN Known("known:F35:C18.neutral: MPS.export() overwrites the stored theta_alpha with the eval-mode one-hot "
                    \o "sample; cost / state_dict differ until the next forward (" \o where \o ": changed "
                    \o ToString(ch) \o ")")
+        ELSE IF bad = {} /\ s38
+        THEN Known("known:F38:C18.neutral: SuperNet.export() re-samples the stored theta_alpha of every combiner (eval-mode "
+                   \o "sample with the options in force now); cost / get_cost differ after export() until the next forward ("
+                   \o where \o ": changed " \o ToString(ch) \o ")")
         ELSE IF bad = {} /\ s36
         THEN Known("known:F36:C18.usable: MPSAdd.get_cost writes into its own vars(self) inside a vmap'ed function: "
                    \o (IF ~o.copy_ok THEN "the model can no longer be deep-copied / pickled and " ELSE "")
@@ -158,6 +180,10 @@ ObserverVerdict(kind, e, p, where) ==
                   \o (IF "copy_ok" \in bad THEN "the model can no longer be deep-copied; " ELSE "")
                   \o (IF "dkeys" \in bad THEN "vars() of modules changed: new " \o ToString(e.dk.new) \o " removed " \o ToString(e.dk.del)
                       ELSE ""))
+        ELSE IF "optv" \in bad
+        THEN Viol("C18.options at " \o where \o ": observer call changed the options / the sampler in force: before "
+                  \o ToString(p.opt) \o " after " \o ToString(o.opt)
+                  \o (IF bad \ {"optv"} # {} THEN " (and " \o ToString(bad \ {"optv"}) \o ")" ELSE ""))
         ELSE Viol("C18.neutral at " \o where \o ": observer call changed " \o ToString(bad \ UseF)
                   \o (IF ch \ (bad \ UseF) # {} THEN " (besides " \o ToString(ch \ (bad \ UseF)) \o ")" ELSE ""))
 
@@ -173,11 +199,13 @@ SetterVerdict(a, p, o, where) ==
 
 TaintExplains(taint) == (IF "F16" \in taint THEN F16Later ELSE {}) \cup (IF "F35" \in taint THEN F35Later ELSE {})
                         \cup (IF "F36" \in taint THEN F36Fields ELSE {}) \cup (IF "F37" \in taint THEN F37Fields ELSE {})
+                        \cup (IF "F38" \in taint THEN F38Fields ELSE {})
 
 \* the finding an erasure mismatch is attributed to: the first (in this order) that explains one of the differing fields
 TaintId(taint, ch) ==
     IF "F16" \in taint /\ ch \cap F16Later # {} THEN "F16"
     ELSE IF "F35" \in taint /\ ch \cap F35Later # {} THEN "F35"
+    ELSE IF "F38" \in taint /\ ch \cap F38Fields # {} THEN "F38"
     ELSE IF "F36" \in taint /\ ch \cap F36Fields # {} THEN "F36"
     ELSE "F37"
 
@@ -194,7 +222,7 @@ ErasureVerdict(e, taint, where) ==
 (***************************************************************************)
 (* predictions (never an alarm)                                            *)
 (***************************************************************************)
-PredVerdict(kind, hard, hasbn, e, p, where) ==
+PredVerdict(kind, hasbn, e, p, where) ==
     LET a == e.act
         o == e.obs
         r == e.ret
@@ -202,9 +230,23 @@ PredVerdict(kind, hard, hasbn, e, p, where) ==
         THEN Drift("drift:returned cost differs from the cost of the copied model at " \o where)
         ELSE IF r.k = "sum" /\ r.a # p.sum
         THEN Drift("drift:returned summary differs from the summary of the copied model at " \o where)
-        ELSE IF a.a \in {"forward", "mode"} /\ p.st # "mixed"
-        THEN LET c  == [wt |-> p.wt, st |-> p.st = "T", theta |-> p.theta, bn |-> p.nbt]
-                 P  == [hard |-> hard, hasbn |-> hasbn, maxbn |-> p.nbt + 1]
+        ELSE IF a.a = "upd"
+        THEN LET val  == IF a.o = "temp" THEN o.opt.temp = a.v ELSE o.opt[a.o] = (IF a.v = 1 THEN "T" ELSE "F")
+                 kept == \A f \in DOMAIN p.opt \ {a.o, "samp"} : o.opt[f] = p.opt[f]
+                 msamp == IF kind = "mps"
+                          THEN SamplerOf(kind, [gumbel |-> o.opt.gumbel = "T", disable |-> o.opt.disable = "T"])
+                          ELSE p.opt.samp
+             IN IF ~val THEN Drift("drift:option " \o a.o \o " does not read back the value set at " \o where \o ": " \o ToString(o.opt))
+                ELSE IF ~kept THEN Drift("drift:an option call changed another option at " \o where \o ": before "
+                                          \o ToString(p.opt) \o " after " \o ToString(o.opt))
+                ELSE IF o.opt.samp # msamp THEN Drift("drift:sampler in force " \o o.opt.samp \o ", options select " \o msamp \o " at " \o where)
+                ELSE IF o.wt # p.wt \/ o.st # p.st \/ o.theta # p.theta \/ o.nbt # p.nbt
+                THEN Drift("drift:an option call changed modes / stored coefficients / BatchNorm counter at " \o where)
+                ELSE OK
+        ELSE IF a.a \in {"forward", "mode"} /\ p.st # "mixed" /\ p.opt.hard # "mixed" /\ p.opt.samp \notin {"mixed", "?"}
+        THEN LET c  == [wt |-> p.wt, st |-> p.st = "T", theta |-> p.theta, bn |-> p.nbt,
+                        opt |-> [hard |-> p.opt.hard = "T"], samp |-> p.opt.samp]
+                 P  == [hasbn |-> hasbn, maxbn |-> p.nbt + 1]
                  n  == RefNext(kind, P, c, a)
              IN IF o.wt # n.wt \/ o.st # (IF n.st THEN "T" ELSE "F") \/ o.theta # n.theta \/ o.nbt # n.bn
                 THEN Drift("drift:core after " \o ActStr(a) \o " at " \o where \o ": observed "
@@ -217,16 +259,16 @@ PredVerdict(kind, hard, hasbn, e, p, where) ==
 (***************************************************************************)
 (* the walk                                                                *)
 (***************************************************************************)
-StepVerdict(kind, hard, hasbn, e, p, taint, where) ==
+StepVerdict(kind, hasbn, e, p, taint, where) ==
     LET a == e.act
         o == e.obs
     IN  IF e.err # "" THEN Viol("C18.raises at " \o where \o ": " \o e.err)
         ELSE IF o.fperr # "" THEN Viol("C18.raises after " \o where \o ": on the model as it is now, " \o o.fperr)
         ELSE IF ~o.costfin THEN Viol("C18.cost at " \o where \o ": a cost value is not finite / negative")
-        ELSE IF IsObserver(a) THEN Worse(ObserverVerdict(kind, e, p, where), PredVerdict(kind, hard, hasbn, e, p, where))
+        ELSE IF IsObserver(a) THEN Worse(ObserverVerdict(kind, e, p, where), PredVerdict(kind, hasbn, e, p, where))
         ELSE LET v1 == SetterVerdict(a, p, o, where) IN IF Lvl(v1) = 3 THEN v1
         ELSE LET v2 == ErasureVerdict(e, taint, where) IN IF Lvl(v2) = 3 THEN v2
-        ELSE Worse(v2, PredVerdict(kind, hard, hasbn, e, p, where))
+        ELSE Worse(v2, PredVerdict(kind, hasbn, e, p, where))
 
 NewTaint(kind, e, p, taint) ==
     IF ~IsObserver(e.act) THEN taint
@@ -234,12 +276,13 @@ NewTaint(kind, e, p, taint) ==
                \cup (IF F35Sig(kind, e.act, p, e.obs) THEN {"F35"} ELSE {})
                \cup (IF F36Sig(kind, e) THEN {"F36", "F37"} ELSE {})      \* (an F36 call may also write output_shape on fixed layers)
                \cup (IF F37Sig(e) THEN {"F37"} ELSE {})
+               \cup (IF F38Sig(kind, e.act, p, e.obs) THEN {"F38"} ELSE {})
 
 RECURSIVE Walk(_, _, _, _, _, _)
 Walk(t, i, p, taint, acc, dummy) ==
     IF i > Len(t.ev) THEN acc
     ELSE LET e == t.ev[i]
-             v == StepVerdict(t.kind, t.hard, t.hasbn, e, p, taint, "call " \o ToString(i) \o " " \o ActStr(e.act))
+             v == StepVerdict(t.kind, t.hasbn, e, p, taint, "call " \o ToString(i) \o " " \o ActStr(e.act))
          IN  IF Lvl(v) = 3 THEN v
              ELSE Walk(t, i + 1, e.obs, NewTaint(t.kind, e, p, taint), Worse(acc, v), dummy)
 
@@ -249,7 +292,7 @@ Walk(t, i, p, taint, acc, dummy) ==
 Pts(t) == <<t.init>> \o [i \in Idx(t.ev) |-> t.ev[i].obs]
         \o [k \in Idx(t.twins) |-> [t.init EXCEPT !.cs = t.twins[k].cs, !.cost = t.twins[k].cost]]
 
-CostKey(o) == <<o.cs, o.pnet, o.pnas, o.bbn, o.bth, o.bother, o.theta, o.wt, o.st>>
+CostKey(o) == <<o.cs, o.pnet, o.pnas, o.bbn, o.bth, o.bother, o.theta, o.thv, o.optv, o.wt, o.st>>
 
 CostFnVerdict(t) ==
     LET P == Pts(t)
